@@ -20,7 +20,15 @@ def main():
             r = getattr(mod, fname)(c["case"])
             out.append(r)
         except BaseException as e:  # noqa: BLE001
-            out.append({"reproduced": None, "detail": f"replay harness error {type(e).__name__}: {e}\n{traceback.format_exc()[-1500:]}"})
+            frames = traceback.extract_tb(e.__traceback__)
+            inner = frames[-1].filename if frames else ""
+            in_pydrex = any(("/pydrex/" in f.filename.replace("\\", "/")) for f in frames[-3:])
+            if in_pydrex and isinstance(e, Exception):
+                # the replay only feeds inputs that are valid for the property: an exception escaping from the real
+                # code on them is itself the failure (the replay's own mistakes surface outside pydrex frames)
+                out.append({"reproduced": True, "detail": f"the real API raised {type(e).__name__}: {e} (innermost frame {inner})\n{traceback.format_exc()[-800:]}"})
+            else:
+                out.append({"reproduced": None, "detail": f"replay harness error {type(e).__name__}: {e}\n{traceback.format_exc()[-1500:]}"})
     print("REPLAY-RESULTS " + json.dumps(out, default=str))
 
 
